@@ -41,7 +41,11 @@ class PropagatePositions:
 
             res_meta = res.meta
 
+            # Look both ends up before touching res_meta: when the rule is inlined (`?rule`), res is
+            # itself one of the children, and marking its (empty) meta non-empty must not make it
+            # its own last child
             first_meta = self._pp_get_meta(children)
+            last_meta = self._pp_get_meta(reversed(children))
             if first_meta is not None:
                 if not hasattr(res_meta, 'line'):
                     # meta was already set, probably because the rule has been inlined (e.g. `?rule`)
@@ -54,7 +58,6 @@ class PropagatePositions:
                 res_meta.container_column = getattr(first_meta, 'container_column', first_meta.column)
                 res_meta.container_start_pos = getattr(first_meta, 'container_start_pos', first_meta.start_pos)
 
-            last_meta = self._pp_get_meta(reversed(children))
             if last_meta is not None:
                 if not hasattr(res_meta, 'end_line'):
                     res_meta.end_line = getattr(last_meta, 'container_end_line', last_meta.end_line)
